@@ -480,6 +480,12 @@ def _bad_annotation(edits, hdr):
                         ast.parse("def _(x: %s): pass" % a["ann"])
                     except (SyntaxError, ValueError):
                         return True
+            # the return annotation is taken over from the docstring in the same way (`:rtype: ```*Callable[[], None]```` -> `-> *Callable[[], None]`)
+            if e.get("returns") is not None:
+                try:
+                    ast.parse("def _() -> %s: pass" % e["returns"])
+                except (SyntaxError, ValueError):
+                    return True
     return False
 
 
